@@ -936,13 +936,14 @@ def oracle(ctx, disagreements, broken):
                 f.write(text)
             outcome, lib = lib_parse(p)
             n += 1
-            d = [outcome] if outcome != "ok" else X.diff_views(X.ref_view(ld.ref), X.lib_view(lib))
+            # order dependence = differs from what the library itself parsed in the original order
+            d = [outcome] if outcome != "ok" else X.diff_views(X.lib_view(ld.lib), X.lib_view(lib))
             if d:
                 keep = os.path.join(C.VERIF, "replays", f"C15-perm-{ctx.seed}-{i}.xml")
                 os.makedirs(os.path.dirname(keep), exist_ok=True)
                 shutil.copy(p, keep)
                 failures.append({"signature": "C15-parse-order-dependent", "what": "result of loading depends on the order of <components>",
-                                 "input": {"xml": os.path.relpath(keep, C.VERIF)}, "expected": "as original order", "observed": d})
+                                 "input": {"xml": os.path.relpath(keep, C.VERIF)}, "expected": "as parsed in the original order", "observed": d})
                 break
     finally:
         shutil.rmtree(tmp, ignore_errors=True)
@@ -962,8 +963,9 @@ def replay(ctx, rp):
         if os.path.basename(p) in DICTS:
             p = dict_path(os.path.basename(p))
         outcome, lib = lib_parse(p)
-        ld = load("FIX44.xml" if "perm" in os.path.basename(p) else os.path.basename(p))
-        d = [outcome] if outcome != "ok" else X.diff_views(X.ref_view(ld.ref), X.lib_view(lib))
+        perm = "perm" in os.path.basename(p)
+        ld = load("FIX44.xml" if perm else os.path.basename(p))
+        d = [outcome] if outcome != "ok" else X.diff_views(X.lib_view(ld.lib) if perm else X.ref_view(ld.ref), X.lib_view(lib))
         print("replay:", p, "->", d)
         return bool(d)
     ld = load(inp["dict"])
